@@ -347,6 +347,15 @@ impl Visitor<Diagnostic> for RuleGraphReferenceableElements {
         res
     }
 
+    fn visit_var_decl(&mut self, node: &VarDecl) -> Result<Self::Value, Diagnostic> {
+        // An external variable is a reference to a variable that is declared
+        // elsewhere. The declaration does not contain the item that it names.
+        if node.var_type == VariableType::External {
+            return Ok(());
+        }
+        node.recurse_visit(self)
+    }
+
     fn visit_function_block_initial_value_assignment(
         &mut self,
         init: &FunctionBlockInitialValueAssignment,
@@ -372,7 +381,14 @@ impl Visitor<Diagnostic> for RuleGraphReferenceableElements {
             Some(from) => {
                 match node {
                     InitialValueAssignmentKind::None(_) => {}
-                    InitialValueAssignmentKind::Simple(_) => {}
+                    InitialValueAssignmentKind::Simple(simple) => {
+                        // The type can be the name of any type, so an element or
+                        // variable that has a constant initial value is a reference
+                        // to that type
+                        let this = self.declarations.add_node(from);
+                        let depends_on = self.declarations.add_node(&simple.type_name.name);
+                        self.declarations.graph.add_edge(depends_on, this, ());
+                    }
                     InitialValueAssignmentKind::String(_) => {}
                     InitialValueAssignmentKind::EnumeratedValues(_) => {}
                     InitialValueAssignmentKind::EnumeratedType(_) => {}
